@@ -343,5 +343,7 @@ def replay(ob):
     if wit.get("part") == "native":
         return {"confirmed": True, "text": f"two-face vector domain, {wit['axis']} upper edge, {wit['lk']} link: the face result of the along-component differs from the undivided field on the real code"}
     if wit.get("part") == "dispatch":
-        return {"confirmed": True, "text": f"vector {wit['s']}: {wit.get('detail')} (symbolic run of the real code)"}
+        from harness import C03
+        s = wit["s"]
+        return C03.native_dispatch_replay(s["op"], "left", "center", {(s["slot"][0], int(s["slot"][1])): tuple(s["lk"])}, s["kind"])
     return {"confirmed": False, "text": "lemma over the specification"}
